@@ -78,7 +78,7 @@ def register(R):
                ensures=[
                    ("C14", "not (%s)" % REJECT_OLD),
                    ("C01", "self._total_samples == old(self._total_samples) + 1"),
-                   ("C01", "self._samples_since_reset == (1 if %s else old(self._samples_since_reset) + 1)" % FRESH),
+                   ("C01,C02", "self._samples_since_reset == (1 if %s else old(self._samples_since_reset) + 1)" % FRESH),
                    ("C04", "len(self._stream) == len(old(self._stream)) + 1 and self._stream[-1] == " + X0),
                    # (C02: the documented carry-over -- after a drift mean and sd are re-estimated from the last burn_in
                    # observations, whatever their values; nothing else of the previous epoch survives)
